@@ -17,9 +17,10 @@ namespace Biogo.Properties.C13_history
 open Biogo.Morass Biogo.MorassConc Biogo.Interleave
 
 /-- **An I/O failure anywhere in a history is never hidden.**  Every chunk size ≥ 1, either
-    mode, AutoClear/AutoClean on or off, every well-formed history `h` of use cycles, any single
+    mode, AutoClear/AutoClean on or off, every well-formed history `h` of use cycles, any
     fault — the n-th temporary-file creation, Encode, Sync, Seek, Decode (in `Finalise` or in
-    `Pull`), Close or Remove of the *whole history*, so in whichever cycle it falls — or none,
+    `Pull`), Close or Remove of the *whole history*, so in whichever cycle it falls — or none, or
+    (third wave) any *list* of faults armed one after the other (`MorassConc.Fault`),
     and every schedule: once the caller has returned from its last call, either some call
     returned an I/O error, or every call of every cycle succeeded *and* the outputs satisfy
     `HistorySpec`: in every cycle the pulls delivered a non-decreasing permutation of the values
@@ -27,8 +28,9 @@ open Biogo.Morass Biogo.MorassConc Biogo.Interleave
     while delivering, in some cycle, fewer or different values than were pushed in it.
 
     (After an I/O error the caller of the model gives up the cycle — sequential mode — or the
-    sorter — concurrent mode; what the code does when it is used on after a reported error is
-    outside this statement, see notes/C13.md.) -/
+    sorter — concurrent mode.  For a list of faults this statement is satisfied as soon as the first
+    failure has been reported; what holds for the failures that follow the caller's recovery is
+    `C13_recovery.recovery_surfaces`.) -/
 theorem history_fault_surfaces (c : Nat) (hc : 1 ≤ c) (conc ac acl : Bool) (h : List Cycle)
     (hwf : wellFormed ac h = true) (flt : Fault) {s : CState}
     (hr : Reach (sys conc c ac acl (histOps h) flt) s) (hfin : finished s = true) :
